@@ -153,11 +153,14 @@ def _uses(st):
 
 def _drop_stmt(prog, i, params=()):
     stmts = prog['stmts']
-    removed = set(stmts[i][1])
+
+    def outs_of(st):
+        return set(st[1]) if isinstance(st[1], (list, tuple)) else {st[1]}
+    removed = outs_of(stmts[i])
     new = stmts[:i]
     for st in stmts[i + 1:]:
         if removed & set(st[2]):
-            removed |= set(st[1])
+            removed |= outs_of(st)
             continue
         new.append(st)
     outs = [o for o in prog.get('outputs', []) if o not in removed]
